@@ -107,6 +107,14 @@ CHECKS["C01"] = dict(
     design_ref="5/C01",
 )
 
+CHECKS["C15"] = dict(
+    category="proof",
+    text="The real XML writer is executed symbolically over writer histories on the abstract file system: the same writer writing twice, a second writer with another decimal precision (2, 7) constructed in between, and overwrite mode SKIP on an existing (real temporary) file. Postconditions: the second document is identical to the first (date aside) with the same number of elements; the document equals that of an identically constructed writer used alone (float_to_str is a function of value and precision, so a leaked precision shows as a different text term); under SKIP no write reaches the path and the real file is byte-for-byte unchanged.",
+    note="XML writer only - the protobuf writer (which re-creates its message per write) is not under contract; the module-global precision is modelled as a class-attribute overlay; documents compared as abstract trees (text of numbers compared by value and lexical class)",
+    technique="deductive: AST symbolic execution of real writer source over operation histories with an abstract file system, frame/non-interference postconditions discharged by z3",
+    design_ref="5/C15",
+)
+
 NOT_YET = {}
 
 def main():
